@@ -29,6 +29,10 @@ impl Group for HbGroup {
         // regression witnesses (DESIGN §6 D13): timeout < interval; jitter below the timeout with timeout >= interval
         v.push(Case { lines: vec!["hb run 10000 3000 never 60000 3".into()] });
         v.push(Case { lines: vec!["hb run 2000 3000 never 30000 3 2903 3".into()] });
+        // the answer arrives before the request's write call has returned (slow flush), timeout < = > interval
+        for (i, t) in [(10000u64, 3000u64), (1000, 1000), (2000, 5000), (50, 10), (100, 30)] {
+            for f in [5u64, 7] { v.push(Case { lines: vec![format!("hb runf {f} {i} {t} never {} 3", 8 * i.max(t))] }); v.push(Case { lines: vec![format!("hb runf {f} {i} {t} 3 {} 3 13", 10 * i.max(t))] }); }
+        }
         v
     }
 
@@ -40,7 +44,8 @@ impl Group for HbGroup {
         let delays: Vec<u64> = (0..nd).map(|_| { let m = if rng.chance(1, 8) { t + 10 * rng.below(5) } else { 10 * rng.below(t / 10) }; m + 3 }).collect();
         let silent = match rng.below(4) { 0 => "never".to_string(), _ => rng.below(9).to_string() };
         let horizon = (rng.range(3, 14)) * i.max(t);
-        Case { lines: vec![format!("hb run {i} {t} {silent} {horizon} {}", delays.iter().map(|d| d.to_string()).collect::<Vec<_>>().join(" "))] }
+        let head = if rng.chance(1, 3) { format!("hb runf {}", rng.pick(&[5u64, 7])) } else { "hb run".to_string() };
+        Case { lines: vec![format!("{head} {i} {t} {silent} {horizon} {}", delays.iter().map(|d| d.to_string()).collect::<Vec<_>>().join(" "))] }
     }
 
     fn exec(&self, case: &Case) -> Outcome {
@@ -49,6 +54,8 @@ impl Group for HbGroup {
         rt.block_on(async {
             for line in &case.lines {
                 let toks: Vec<&str> = line.split_whitespace().collect();
+                // `hb runf <F> ...`: as `hb run ...` on a transport whose flush completes F ms late (the peer already has the bytes)
+                let (flush, toks): (Option<u64>, Vec<&str>) = if toks.len() > 2 && toks[1] == "runf" { (toks[2].parse().ok(), [&["hb", "run"][..], &toks[3..]].concat()) } else { (None, toks) };
                 let ["hb", "run", i, t, silent, horizon, delays @ ..] = toks.as_slice() else { out.obs.push("bad-op".into()); continue; };
                 let (Ok(i), Ok(t), Ok(horizon)) = (i.parse::<u64>(), t.parse::<u64>(), horizon.parse::<u64>()) else { out.obs.push("bad-op".into()); continue; };
                 let silent_from: Option<usize> = if *silent == "never" { None } else { silent.parse().ok() };
@@ -62,6 +69,7 @@ impl Group for HbGroup {
                 let _ = node.session.write_control_frame(anytls_rs::protocol::Frame::control(anytls_rs::protocol::Command::Waste, 0)).await;
                 let notify = Arc::new(tokio::sync::Notify::new());
                 node.wire.lock().unwrap().notify = Some(notify.clone());
+                node.wire.lock().unwrap().flush_delay = flush.map(Duration::from_millis);
                 // scripted peer
                 let wire = node.wire.clone();
                 let feed = node.feed.clone();
@@ -122,7 +130,7 @@ impl Group for HbGroup {
                     if delays.iter().all(|d| *d < t) {
                         // the peer's last answer (or the session start, if it never answered) + timeout + interval
                         let last = answers.iter().copied().max().unwrap_or(0);
-                        let bound = last + t + i + 2;
+                        let bound = last + t + i + 2 + flush.unwrap_or(0);
                         match closed_at {
                             Some(c) if c <= bound => {}
                             Some(c) => out.oracle.push(OracleFail { sig: "dead_session_closed_late/liveness_monitor".into(), detail: format!("interval {i}, timeout {t}, silent from request {sf}: last answer at {last} ms, closed at {c} ms > {bound}") }),
@@ -130,6 +138,7 @@ impl Group for HbGroup {
                         }
                     }
                 }
+                if flush.is_some() { out.tags.push("slow_flush".into()); }
                 out.tags.push(format!("{}{}", if healthy { "healthy" } else { "unhealthy" }, if t < i { "/T<I" } else if t == i { "/T=I" } else { "/T>I" }));
                 // closing instants are multiples of 10 ms (interval, timeout are); the 1 ms sampling observes them up to 1 ms late
                 out.obs.push(format!("closed_at={}", closed_at.map(|c| (c / 10 * 10).to_string()).unwrap_or("never".into())));
